@@ -48,11 +48,16 @@ struct Mmu {
     int prot_at(uintptr_t a) { Region *r = find(a); if (!r) return -1; return r->prot[(a - r->base) / P]; }
 } M;
 
+int lock_outcome();
+int lock_outcome_peek() { int e = errno; int rc = lock_outcome(); errno = e; return rc; }
 void *h_mmap(void *addr, size_t len, int prot, int flags, int fd, off_t off) {
     int d = simos_suspend();
     void *ret = MAP_FAILED;
     M.n_map_calls++;
     if (len == 0 || len > OS_LIMIT) errno = len ? ENOMEM : EINVAL; // the simulated machine has 64 MiB to give
+#ifdef MAP_LOCKED
+    else if ((flags & MAP_LOCKED) && lock_outcome_peek() != 0) errno = EAGAIN; // locked-memory limit applies inside mmap too
+#endif
     else {
         size_t want = (len + M.P - 1) / M.P * M.P;
         unsigned char *raw = (unsigned char *) simos_real_mmap(addr, want + M.P, prot, flags, fd, off);
